@@ -891,6 +891,12 @@ func (ex *Executor) paramValue(st *State, name string, t types.Type) Value {
 			return &CtxV{Base: Const(name, SInt)}
 		}
 		c := Const(name, s)
+		switch t.Underlying().(type) {
+		case *types.Pointer, *types.Interface, *types.Map, *types.Signature, *types.Chan:
+			// objects that exist before the call are distinct from everything
+			// the function allocates itself (allocation ids are negative)
+			st.Fact(Ge(c, IntLit(0)))
+		}
 		if sl, isSl := t.Underlying().(*types.Slice); isSl {
 			if es, ok := scalarSort(sl.Elem()); ok {
 				return ex.symSliceOfRef(st, c, sl.Elem(), es)
